@@ -92,7 +92,22 @@ func genCase(t *rapid.T) Case {
 		c.Clients = append(c.Clients, cl)
 	}
 	if c.Nodes == 3 {
-		switch rapid.IntRange(0, 3).Draw(t, "fault") {
+		switch rapid.IntRange(0, 4).Draw(t, "fault") {
+		case 3:
+			// the same node goes down and comes back twice while its clients keep (re)connecting: they
+			// talk to it while it replays its log
+			tgt := 1 + rapid.IntRange(0, 2).Draw(t, "target")
+			c.Faults = append(c.Faults, Fault{Kind: "kill-restart", Target: tgt, AtMs: rapid.IntRange(0, 40).Draw(t, "at"), DurMs: 100},
+				Fault{Kind: "kill-restart", Target: tgt, AtMs: 2600 + rapid.IntRange(0, 400).Draw(t, "at2"), DurMs: 100})
+			for i := range c.Clients {
+				if i%2 == 0 {
+					c.Clients[i].Node = tgt
+				}
+				for len(c.Clients[i].Ops) < 150 {
+					c.Clients[i].Ops = append(c.Clients[i].Ops, genOp(t, i, len(c.Clients[i].Ops)))
+				}
+			}
+			c.PaceUs = 20000
 		case 1:
 			c.Faults = append(c.Faults, Fault{Kind: "kill-restart", Target: 1 + rapid.IntRange(0, 2).Draw(t, "target"), AtMs: rapid.IntRange(0, 60).Draw(t, "at"), DurMs: rapid.SampledFrom([]int{100, 1500}).Draw(t, "dur")})
 		case 2:
@@ -149,6 +164,7 @@ func (cc *cconn) do(cmd kit.Cmd) (respx.Value, bool) {
 	if cc.c == nil {
 		c, err := cc.cl.Dial(cc.node)
 		if err != nil {
+			time.Sleep(40 * time.Millisecond) // the node is down: do not burn through the program
 			return respx.Value{}, false
 		}
 		cc.c = c
